@@ -137,7 +137,7 @@ def invalid_variants(t, v, env, rng, depth=0):
             nv = "-notvisible" if k == "UTF8String" else ""      # X.691: not a known-multiplier type, SIZE is not PER-visible
             if sz["hi"] is not None and sz["hi"] < 400: yield mk(sz["hi"] + 1), "size-long" + nv
             if k == "BIT STRING": nv = "-bits"      # asn1c pads a short BIT STRING with zero bits up to the lower bound (F19 family)
-            if sz["lo"]: yield mk(sz["lo"] - 1), ("size-short" if sz["hi"] is not None else "size-short-semi") + nv
+            if sz["lo"]: yield mk(sz["lo"] - 1), ("size-short" if sz["hi"] is not None and sz["hi"] < 65536 else "size-short-semi") + nv   # ub >= 64K: general length form (X.691 11.9.4.1), it can carry any length
         if k in ("IA5String", "VisibleString", "PrintableString", "NumericString") and v:
             bad = {"IA5String": 0x80, "VisibleString": 0x1f, "PrintableString": 0x2a, "NumericString": 0x41}[k]
             b = bytearray(str_bytes(k, v)); b[len(b) // 2] = bad
@@ -178,7 +178,7 @@ def invalid_variants(t, v, env, rng, depth=0):
             if sz["hi"] is not None and sz["hi"] < 40:
                 yield list(v) + [ev.value(t["elem"], None, depth + 1) for _ in range(sz["hi"] + 1 - len(v))], "list-long"
             if sz["lo"]:
-                yield list(v)[:sz["lo"] - 1], "list-short" if sz["hi"] is not None else "list-short-semi"
+                yield list(v)[:sz["lo"] - 1], "list-short" if sz["hi"] is not None and sz["hi"] < 65536 else "list-short-semi"
         if v:
             i = rng.randrange(len(v))
             for y, kind in invalid_variants(t["elem"], v[i], env, rng, depth + 1):
